@@ -119,7 +119,10 @@ def isinstance_table(rep, cases, info, res):
             for rn in kinds:
                 if rn == "Comment":
                     continue
-                got = bool(textx_isinstance(o, b.mm[rn]))
+                try:
+                    got = bool(textx_isinstance(o, b.mm[rn]))
+                except RecursionError:
+                    got = "RecursionError"
                 want = (ocls, rn) in conf
                 n += 1
                 if got != want:
@@ -128,7 +131,7 @@ def isinstance_table(rep, cases, info, res):
                                   f"textx_isinstance(<{ocls}>, {rn}) is {got} but Peg!Conforms says {want} for grammar "
                                   f"{G.render_grammar(c['g']).strip()!r}")
                     break
-            if not textx_isinstance(o, b.mm["OBJECT"]):
+            if textx_isinstance(o, b.mm["OBJECT"]) is not True:
                 rep.violation(dict(P.describe(c), obj=ocls, rule="OBJECT"), "textx_isinstance(obj, OBJECT) is False")
             if kinds.get(ocls) != "common":
                 rep.violation(dict(P.describe(c), obj=ocls), f"model contains an object of rule {ocls} which is {kinds.get(ocls)}")
